@@ -21,7 +21,12 @@ Invariant test kinds (function invariant_<name>(), value v = C.get()):
   inv_ne N       Panic(1) iff v == N
   inv_slot W     Panic(1) iff sload(1) of the test contract == W (never for a != W)
 Target functions of C (slot 0 = counter c, initially 0): inc (c+1), add2 (c+2), dbl (2c+1), reset (c=0),
-  cap3 (c+1 if c < 3 else revert), setx (c = calldata word, symbolic), get (view).
+  cap3 (c+1 if c < 3 else revert), setx (c = calldata word, symbolic), get (view),
+  bump (bump(uint256 n): for (i = 0; i < n; i++) c++ -- what one transaction reaches depends on the
+  loop bound of the config that explores it: c, c+1, ..., c+L under --loop L).
+"devdoc": {test name: "<halmos options>"} puts a function-level `@custom:halmos` annotation on a test
+(--width w, --loop L, --invariant-depth d): the config of THAT test only.  "toml": true writes the contract-level
+--invariant-depth ("depth") and --loop ("loop") into halmos.toml instead of passing them on the command line.
 
 Everything lives in a temp dir outside /verif and /repo which the caller removes.
 """
@@ -79,10 +84,17 @@ def target_fun_body(name):
         return [("push", 4), "CALLDATALOAD", "PUSH0", "SSTORE", "STOP"]
     if name == "get":
         return ["PUSH0", "SLOAD", "PUSH0", "MSTORE", ("push", 0x20), "PUSH0", "RETURN"]
+    if name == "bump":
+        # i = 0; while (n > i) { c++; i++ }    (n = calldata word, symbolic: the loop bound decides)
+        return ["PUSH0",
+                ("label", "bump_loop"), "DUP1", ("push", 4), "CALLDATALOAD", "GT", ("ref", "bump_body"), "JUMPI", "POP", "STOP",
+                ("label", "bump_body"), "PUSH0", "SLOAD", ("push", 1), "ADD", "PUSH0", "SSTORE", ("push", 1), "ADD",
+                ("ref", "bump_loop"), "JUMP"]
     raise ValueError(name)
 
 
-TARGET_SIGS = {"inc": "inc()", "add2": "add2()", "dbl": "dbl()", "reset": "reset()", "cap3": "cap3()", "setx": "setx(uint256)", "get": "get()"}
+TARGET_SIGS = {"inc": "inc()", "add2": "add2()", "dbl": "dbl()", "reset": "reset()", "cap3": "cap3()", "setx": "setx(uint256)", "get": "get()",
+               "bump": "bump(uint256)"}
 
 
 def target_runtime(funs):
@@ -198,6 +210,10 @@ def build_project(root, spec):
         if d:
             devdoc[test_sig(n, k)] = {"custom:halmos": d}
     os.makedirs(os.path.join(root, "out", "T.sol"), exist_ok=True)
+    if spec.get("toml"):
+        # contract-level config below the function-level annotations (the command line would override them)
+        with open(os.path.join(root, "halmos.toml"), "w") as f:
+            f.write("[global]\ninvariant-depth = %d\n" % spec["depth"] + ("loop = %d\n" % spec["loop"] if spec.get("loop") else ""))
     with open(os.path.join(root, "out", "T.sol", "T.json"), "w") as f:
         json.dump(artifact("T", {s: "nonpayable" for s in order}, order, t_cr, t_rt, "test/T.sol", devdoc), f)
     if target is not None:
@@ -342,3 +358,32 @@ def fast_solver_schedule():
         yield
     finally:
         cls.handle_assertion_violation = orig
+
+
+@contextlib.contextmanager
+def observe_explore_cfg(seen):
+    """Run-time cross-check of translate/t_frontierflow.py: while a test whose own config differs from the
+    contract's is running, which of the two HalmosConfig objects does run_target_function receive?
+    Adds 'test' / 'contract' / 'other' to the set `seen`."""
+    import halmos.__main__ as hm
+
+    cur = []
+    orig_test, orig_fun = hm.run_test, hm.run_target_function
+
+    def run_test(ctx, *a, **kw):
+        cur.append((ctx.args, ctx.contract_ctx.args))
+        try:
+            return orig_test(ctx, *a, **kw)
+        finally:
+            cur.pop()
+
+    def run_target_function(args, *a, **kw):
+        if cur and cur[-1][0] is not cur[-1][1]:
+            seen.add("test" if args is cur[-1][0] else "contract" if args is cur[-1][1] else "other")
+        return orig_fun(args, *a, **kw)
+
+    hm.run_test, hm.run_target_function = run_test, run_target_function
+    try:
+        yield
+    finally:
+        hm.run_test, hm.run_target_function = orig_test, orig_fun
